@@ -99,7 +99,23 @@ def assume_physical(ctx, ref, free_T_cell=None):
                 ctx.assume(arr[idx + (iY0,)].t + arr[idx + (iY1,)].t >= core.rv(0.5))
 
 
-def run_chef(mods, ref, cfg, serial, ctx, canary=False, free_T_cell=None, prior=None):
+def cli_argv(cfg, out='out'):
+    label, recipe, kw, kept, newnames = cfg
+    argv = ['chef', 'plt', '--outdir', out, '--recipe', recipe]
+    if 'mech' in kw:
+        argv += ['--mech', kw['mech']]
+    if 'pressure' in kw:
+        argv += ['--pressure', repr(float(kw['pressure']))]
+    if kw.get('species'):
+        argv += ['--species'] + list(kw['species'])
+    if kw.get('reactions'):
+        argv += ['--reactions'] + [str(r) for r in kw['reactions']]
+    if kept:
+        argv += ['--kept_fields', kept]
+    return argv
+
+
+def run_chef(mods, ref, cfg, serial, ctx, canary=False, free_T_cell=None, prior=None, cli=False):
     label, recipe, kw, kept, newnames = cfg
     chefmod = mods['amr_kitchen.chef.chef']
     Taster = mods['amr_kitchen.taste.taste'].Taster
@@ -122,10 +138,34 @@ def run_chef(mods, ref, cfg, serial, ctx, canary=False, free_T_cell=None, prior=
             except Exception:
                 pass
         try:
-            ch = chefmod.Chef(plotfile='plt', recipe=recipe, outfile='out', serial=serial, kept_fields=kept, **kw)
-            if callable(getattr(ch, 'recipe', None)) and hasattr(ch.recipe, '__globals__'):
-                ch.recipe.__globals__['np'] = npfacade.facade     # the recipe file's numpy, for object arrays
-            ch.cook()
+            if cli:
+                # the command-line entry point (always parallel); the Chef it builds gets the facade for a user recipe's numpy
+                import sys
+                what = ' '.join(repr(a) if ' ' in a else a for a in cli_argv(cfg))
+                climod = mods['amr_kitchen.chef.cli']
+                RealChef = climod.Chef
+
+                class ChefWithFacade(RealChef):
+                    def __init__(self, *a, **k):
+                        super().__init__(*a, **k)
+                        if callable(getattr(self, 'recipe', None)) and hasattr(self.recipe, '__globals__'):
+                            self.recipe.__globals__['np'] = npfacade.facade
+                old_argv = sys.argv
+                sys.argv = cli_argv(cfg)
+                climod.Chef = ChefWithFacade
+                try:
+                    climod.main()
+                finally:
+                    sys.argv = old_argv
+                    climod.Chef = RealChef
+            else:
+                ch = chefmod.Chef(plotfile='plt', recipe=recipe, outfile='out', serial=serial, kept_fields=kept, **kw)
+                if callable(getattr(ch, 'recipe', None)) and hasattr(ch.recipe, '__globals__'):
+                    ch.recipe.__globals__['np'] = npfacade.facade     # the recipe file's numpy, for object arrays
+                ch.cook()
+        except SystemExit as e:
+            obl.fail('%s exited with %r' % (what, e.code))
+            return obl
         except Exception as e:
             obl.fail('%s raised %s: %s' % (what, type(e).__name__, str(e)[:140]))
             return obl
@@ -182,6 +222,19 @@ def run_case(case):
                 sig = 'C11/%s/%s' % (cfg[0], kind)
                 if sig not in viol:
                     viol[sig] = {'signature': sig, 'what': msg[:400], 'cfg': cfg, 'serial': serial, 'model': obl.failed[0][1] or ctx.model()}
+    # the command line: a user recipe with kept fields, a built-in recipe with pressure, one with a species list
+    for cfg in [CONFIGS[1], ('ENT+kept', 'ENT', {'mech': 'm.yaml', 'pressure': 2.0}, 'temp', ['Enthalpy']),
+                ('SDi+kept', 'SDi', {'mech': 'm.yaml', 'pressure': 1.0, 'species': ['H2', 'O2']}, 'a density', ['DI(H2)', 'DI(O2)'])][:2 if common.TIER == 'quick' else 3]:
+        def cpath(ctx, cfg=cfg):
+            return run_chef(mods, ref, cfg, False, ctx, cli=True)
+        results, exhaustive, stats = core.explore(cpath, max_paths=16)
+        res.add_explore(results, exhaustive, stats)
+        for ctx, obl in results:
+            res.add_obl(obl)
+            if obl.failed and not ctx.flags:
+                sig = 'C11/cli/%s' % cfg[0]
+                if sig not in viol:
+                    viol[sig] = {'signature': sig, 'what': obl.failed[0][0][:400], 'cfg': cfg, 'serial': False, 'model': obl.failed[0][1] or ctx.model(), 'cli': True}
     # histories: two Chefs in one process with different recipes and pressures; the second one is judged
     HIST = [(('ENT+kept', 'ENT', {'mech': 'm.yaml', 'pressure': 2.0}, 'temp', ['Enthalpy']), ('HRR@3', 'HRR', {'mech': 'm.yaml', 'pressure': 3.0}, 'density', ['HeatRelease'])),
             (('HRR', 'HRR', {'mech': 'm.yaml', 'pressure': 1.0}, None, ['HeatRelease']), ('SDi@5+kept', 'SDi', {'mech': 'm.yaml', 'pressure': 5.0, 'species': ['H2', 'O2']}, 'a', ['DI(H2)', 'DI(O2)'])),
@@ -297,6 +350,8 @@ def make_replay(ref, v):
             'ref': {'fields': ref.fields, 'lo': ref.lo, 'hi': ref.hi, 'dx': ref.dx, 'ncell': [list(n) for n in ref.ncell], 'time': ref.time,
                     'boxes': [[[list(a), list(b)] for a, b in lv] for lv in ref.boxes],
                     'data': [[replay_lib._arr_hex(a) for a in lv] for lv in data]}}
+    if v.get('cli'):
+        case['cli'] = cli_argv((label, recipe, kw2, kept, newnames), out='out')
     if v.get('prior'):
         pk = dict(v['prior'][2])
         if 'mech' in pk:
